@@ -7,6 +7,7 @@ use std::time::{Duration, Instant};
 
 mod eval;
 mod relations;
+mod builders;
 mod rng;
 mod t_time_locks;
 mod t_tree_hash;
@@ -75,6 +76,7 @@ fn main() {
                     "datalayer_histories" => eval::replay_histories(&v["input"]),
                     "sig_paths_ground" => eval::replay_sig_paths(&v["input"]),
                     "relations_ground" => relations::replay_relations(&v["input"]),
+                    "builders_ground" => builders::replay_builders(&v["input"]),
                     "bls_cache_ground" => eval::replay_bls(&v["input"]),
                     "tree_hash_precomputed" => eval::replay_precomputed(&v["input"]),
                     _ => (false, "unknown eval replay".to_string()),
